@@ -24,7 +24,7 @@ RULE = ("site in {caltech, jpl, office001} x basic/real EVSEs x generated transf
         "climb order kind, which transformer saturates)")
 PROBES = ["climb", "within_1pct_of_transformer", "concentrated_phase_pair", "sim_world", "sim_columns_checked",
           "jpl_first_floor_saturated", "jpl_third_fourth_saturated", "pod_or_panel_binding", "evse_limited_climb", "int_dtype_probe", "json_restart", "multi_period_probe",
-          "multi_period_reported_feasible", "what_if_constraint_removed_on_own_copy"]
+          "multi_period_reported_feasible", "what_if_constraint_removed_on_own_copy", "schedule_over_1000_periods", "caltech_built_through_old_alias"]
 FAULT_DIMENSION = "restart only (site network saved to JSON and loaded before probing); otherwise saturated-state distribution"
 REAL_VS_STUB = "real: caltech_acn / jpl_acn / office001_acn, Current algebra, ChargingNetwork.is_feasible, sorted algorithm + Simulator in the in-simulation layer"
 ASSUMPTIONS = ["external truth: which EVSEs sit behind which transformer (Caltech/Office001: all; JPL: AG-1F* vs AG-3F*/AG-4F*), "
@@ -47,6 +47,7 @@ def gen(rs, tier):
         kw["first_transformer_cap"] = r.choice([45, 45, 30, round(r.uniform(15, 70), 1)])
         kw["third_fourth_transformer_cap"] = r.choice([150, 150, 100, round(r.uniform(50, 220), 1)])
     sc = {"seed": rs, "site": site, "site_kwargs": kw, "mode": "sim" if rs % 6 == 0 else "climb", "json_restart": r.random() < 0.3,
+          "site_alias": site == "caltech" and sub(rs, "alias").random() < 0.3,
           "climbs": r.randint(2, 4), "sort": r.choice(["fcfs", "lcfs", "llf", "edf", "lrpt"])}
     return sc
 
@@ -190,7 +191,9 @@ def check(sc):
     r = sub(sc["seed"], "climb")
     with warnings.catch_warnings():
         warnings.simplefilter("ignore")
-        nw = build_network({"kind": sc["site"], "site_kwargs": sc["site_kwargs"]})
+        nw = build_network({"kind": sc["site"], "site_kwargs": sc["site_kwargs"], "site_alias": sc.get("site_alias", False)})
+        if sc.get("site_alias"):
+            out.probe("caltech_built_through_old_alias")
         if sc.get("json_restart"):
             # restart: the site network is saved to JSON and loaded; everything below runs on the loaded object
             reg = list(nw.station_ids)
@@ -227,11 +230,20 @@ def check(sc):
                 pick = [r.randrange(len(cols)) for _ in range(T)]
                 if r.random() < 0.7 and 3 not in pick:
                     pick[r.randrange(T)] = 3
+                if sub(sc["seed"], "long_schedule", c).random() < 0.2:
+                    # an offline schedule of more than a thousand periods: light columns everywhere, the heavier one somewhere
+                    T = r.choice([1025, 1100, 2050, 1500])
+                    pick = [r.choice([0, 1, 4]) for _ in range(T)]
+                    pick[r.choice([T - 1, T - 2, r.randrange(T), r.randrange(1024, T)])] = 3
+                    out.probe("schedule_over_1000_periods")
                 M = np.array([[cols[j][k] for j in pick] for k in range(len(vec))], dtype=float)
                 out.probe("multi_period_probe")
                 if bool(nw.is_feasible(M)):
                     out.probe("multi_period_reported_feasible")
+                    first_pos = {}
                     for pos, j in enumerate(pick):
+                        first_pos.setdefault(j, pos)
+                    for j, pos in sorted(first_pos.items()):
                         check_schedule(out, nw, sc["site"], sc["site_kwargs"], ids, cols[j],
                                        "column %d of a %d-period schedule reported feasible (hill climb %d, %s)" % (pos, T, c, kind), feasible_known=True)
                         if out.viol:
@@ -254,7 +266,7 @@ def check(sc):
             if names_:
                 nw.remove_constraint(names_[r.randrange(len(names_))])
                 out.probe("what_if_constraint_removed_on_own_copy")
-                nw2 = build_network({"kind": sc["site"], "site_kwargs": sc["site_kwargs"]})
+                nw2 = build_network({"kind": sc["site"], "site_kwargs": sc["site_kwargs"], "site_alias": sc.get("site_alias", False)})
                 if nw2 is nw or list(nw2.constraint_index) != names_ or [float(x) for x in nw2.magnitudes] != lims_:
                     out.add("C16/second_build_not_independent", "%s %s: after removing a constraint from one built network, building the same "
                             "site again gives %d constraints (first build had %d)%s" % (sc["site"], sc["site_kwargs"], len(nw2.constraint_index),
@@ -281,7 +293,7 @@ def check_sim(sc):
     r = sub(sc["seed"], "sim")
     with warnings.catch_warnings():
         warnings.simplefilter("ignore")
-        nw0 = build_network({"kind": sc["site"], "site_kwargs": sc["site_kwargs"]})
+        nw0 = build_network({"kind": sc["site"], "site_kwargs": sc["site_kwargs"], "site_alias": sc.get("site_alias", False)})
     ids = nw0.station_ids
     stations = []
     for i, s in enumerate(ids):
